@@ -106,6 +106,35 @@ type recorder struct {
 	cparams  map[string]string // the client's startup parameters, read off its own byte stream
 	cparamOK bool
 	lastCtx  context.Context
+	kept     []keptT
+}
+
+// data handed to callbacks, retained as handed over (it may alias the reader's
+// buffer) together with a private copy made at that moment
+type keptT struct {
+	what string
+	s    string
+	b    []byte
+	isB  bool
+	copy []byte
+}
+
+func (r *recorder) keepS(what, s string) {
+	r.kept = append(r.kept, keptT{what: what, s: s, copy: []byte(strings.Clone(s))})
+}
+func (r *recorder) keepB(what string, b []byte) {
+	if b == nil {
+		return
+	}
+	r.kept = append(r.kept, keptT{what: what, b: b, isB: true, copy: append([]byte{}, b...)})
+}
+func (r *recorder) checkKept(when string) {
+	for _, k := range r.kept {
+		if (k.isB && string(k.b) != string(k.copy)) || (!k.isB && k.s != string(k.copy)) {
+			r.bad("%s handed to a callback changed afterwards (%s): now %q, was %q", k.what, when, k.s+string(k.b), k.copy)
+			return
+		}
+	}
 }
 
 // registry routes callbacks of one server to the recorder of the connection
@@ -244,6 +273,11 @@ func buildServer(c *cfgT, reg *registry, extra ...wire.OptionFn) (*wire.Server, 
 	parse := func(ctx context.Context, query string) (wire.PreparedStatements, error) {
 		r := reg.of(ctx)
 		r.checkCtx(ctx, true)
+		r.checkKept("at a later parser call")
+		r.keepS("query text", query)
+		for k, v := range wire.ClientParameters(ctx) {
+			r.keepS("client parameter "+string(k), v)
+		}
 		r.add("parse", []byte(query))
 		var entry *parseEntry
 		for i := range c.parse {
@@ -272,8 +306,10 @@ func buildServer(c *cfgT, reg *registry, extra ...wire.OptionFn) (*wire.Server, 
 			fn := func(ctx context.Context, w wire.DataWriter, params []wire.Parameter) error {
 				r := reg.of(ctx)
 				r.checkCtx(ctx, true)
+				r.checkKept("at a later statement call")
 				ps := []any{"params"}
 				for _, p := range params {
+					r.keepB("parameter value", p.Value())
 					if p.Value() == nil {
 						ps = append(ps, sx(int(uint16(p.Format())), "null"))
 					} else {
@@ -363,6 +399,9 @@ func buildServer(c *cfgT, reg *registry, extra ...wire.OptionFn) (*wire.Server, 
 		opts = append(opts, wire.SessionAuthStrategy(wire.ClearTextPassword(func(ctx context.Context, database, username, password string) (context.Context, bool, error) {
 			r := reg.of(ctx)
 			r.checkCtx(ctx, false)
+			r.keepS("password", password)
+			r.keepS("database", database)
+			r.keepS("user", username)
 			r.add("validate", []byte(database), []byte(username), []byte(password))
 			switch c.auth {
 			case "pw":
@@ -506,6 +545,7 @@ func serveAsync(srv *wire.Server, conn *memConn, o *obsT) {
 }
 
 func collect(conn *memConn, rec *recorder, o *obsT) {
+	rec.checkKept("at the end of the connection")
 	// the context of the last command must be cancelled once the connection is over
 	if rec.lastCtx != nil && rec.lastCtx.Err() == nil {
 		rec.bad("context of the last command is still alive after the connection ended")
